@@ -9,6 +9,7 @@
 #include <string.h>
 
 #include <map>
+#include <set>
 #include <string>
 #include <vector>
 
@@ -110,6 +111,7 @@ inline DepsLogModel ParseDepsLog(const std::string& data, bool present = true) {
   m.header_ok = true;
   size_t pos = sig + 4;
   m.good_size = pos;
+  std::set<std::string> seen_paths;
   while (pos < data.size()) {
     if (pos + 4 > data.size()) { m.clean = false; break; }
     uint32_t size;
@@ -147,9 +149,7 @@ inline DepsLogModel ParseDepsLog(const std::string& data, bool present = true) {
       memcpy(&checksum, rec + size - 4, 4);
       if (checksum != ~(uint32_t)m.paths.size()) { m.clean = false; break; }
       std::string path(rec, path_size);
-      bool dup = false;
-      for (auto& q : m.paths) if (q == path) dup = true;
-      if (dup) { m.clean = false; break; }   // a path is recorded once: a second id for it is damage
+      if (!seen_paths.insert(path).second) { m.clean = false; break; }   // a path is recorded once: a second id for it is damage
       m.paths.push_back(path);
     }
     m.records++;
